@@ -146,6 +146,12 @@ def execute(sc):
     kP = max([compare.corr_cond(embed.to_np(st["Ppred"])) for st in hist[1:]] + [1.0])
     tol_m_ref = max(tol_m_ref, 100 * compare.cond_tol(compare.TOL_LOCAL_MEAN, kP))
     tol_c_ref = max(tol_c_ref, 100 * compare.cond_tol(compare.TOL_LOCAL_COV, kP, 1e4))
+    if cfg["strategy"] != "filter":
+        # smoothed values pass through backward gains that solve with the predicted covariances: a forward-pass error
+        # (1e-13 in well-conditioned runs) re-appears multiplied by cond(corr P-) (C03, DESIGN.md Appendix C); observed at
+        # q = 5, d = 3: means 1.4e-7 at cond 2.6e7, covariances 1.6e-6 at cond 6.4e6
+        tol_m_ref = max(tol_m_ref, 1e-12 * min(kP, 1e16))
+        tol_c_ref = max(tol_c_ref, 1e-12 * min(kP, 1e16))
     tol_sub_m = compare.cond_tol(compare.TOL_LOCAL_MEAN, kP)
     tol_sub_c0 = compare.cond_tol(compare.TOL_LOCAL_COV, kP, 1e4)
     if not viol and not borderline:
